@@ -11,6 +11,7 @@ pub use model::{Addresses, Header, SEPARATOR, TCP4, TCP6, UNKNOWN};
 pub use model::{PROTOCOL_PREFIX, PROTOCOL_SUFFIX};
 use std::borrow::Cow;
 use std::cmp::min;
+use std::iter::Peekable;
 use std::net::{AddrParseError, Ipv4Addr, Ipv6Addr};
 use std::str::{from_utf8, FromStr};
 
@@ -52,7 +53,7 @@ fn parse_header(header: &str) -> Result<Header, ParseError> {
     let addresses = match iterator.next() {
         Some(TCP4) => {
             let (source_address, destination_address, source_port, destination_port) =
-                parse_addresses::<Ipv4Addr, _>(&mut iterator)?;
+                parse_addresses::<Ipv4Addr, _>(&mut iterator, suffix.is_none())?;
 
             Addresses::Tcp4(IPv4 {
                 source_address,
@@ -63,7 +64,7 @@ fn parse_header(header: &str) -> Result<Header, ParseError> {
         }
         Some(TCP6) => {
             let (source_address, destination_address, source_port, destination_port) =
-                parse_addresses::<Ipv6Addr, _>(&mut iterator)?;
+                parse_addresses::<Ipv6Addr, _>(&mut iterator, suffix.is_none())?;
 
             Addresses::Tcp6(IPv6 {
                 source_address,
@@ -110,15 +111,22 @@ fn parse_header(header: &str) -> Result<Header, ParseError> {
 }
 
 /// Parses the addresses and ports from a PROXY protocol header for IPv4 and IPv6.
+/// The line is `open` while its carriage return has not been seen.
 fn parse_addresses<'a, T: FromStr<Err = AddrParseError>, I: Iterator<Item = &'a str>>(
-    iterator: &mut I,
+    iterator: &mut Peekable<I>,
+    open: bool,
 ) -> Result<(T, T, u16, u16), ParseError> {
     let source_address = iterator.next().ok_or(ParseError::MissingSourceAddress)?;
     let destination_address = iterator
         .next()
         .ok_or(ParseError::MissingDestinationAddress)?;
     let source_port = iterator.next().ok_or(ParseError::MissingSourcePort)?;
-    let destination_port = iterator.next().ok_or(ParseError::MissingDestinationPort)?;
+    let destination_port = match iterator.next() {
+        // The input ends right after the separator: the port has not arrived yet.
+        Some(port) if port.is_empty() && open && iterator.peek().is_none() => None,
+        port => port,
+    }
+    .ok_or(ParseError::MissingDestinationPort)?;
 
     let source_address = source_address
         .parse::<T>()
